@@ -380,6 +380,11 @@ fn body(space: Space) -> impl Fn(&Ch) -> Run + Sync + Send {
         if rich && (w.attrs[n - 1] != Attr::None || w.attrs[w.final_target(n - 1)] != Attr::None) {
           continue;
         }
+        // ... and what the resolve_types table points an untyped module at is
+        // an attribute-less load too (same-attribute proviso)
+        if rich && (0..n).any(|i| matches!(w.kinds[i], Kind::Js | Kind::Jsx) && (w.attrs[(i + 1) % n] != Attr::None || w.attrs[w.final_target((i + 1) % n)] != Attr::None)) {
+          continue;
+        }
         let cfg = Cfg {
           kind,
           skip_dynamic,
@@ -399,6 +404,7 @@ fn body(space: Space) -> impl Fn(&Ch) -> Run + Sync + Send {
         };
         let npm = ScriptedNpmResolver::default();
         let mut g = ModuleGraph::new(kind);
+        let mut seeded_extra: BTreeSet<String> = BTreeSet::new();
         if seeded {
           // the lockfile already knows the redirects the build is going to meet
           let Some(want) = expected_closure(&w, &cfg) else { continue };
@@ -406,8 +412,21 @@ fn body(space: Space) -> impl Fn(&Ch) -> Run + Sync + Send {
             .filter(|i| w.kinds[*i] == Kind::Redirect && want.contains(&w.spec(*i)))
             .map(|i| (w.spec(i), w.spec(w.redirect_to[i])))
             .collect();
-          if pairs.is_empty() {
+          // (fill_from_lockfile ignores file: redirects)
+          if pairs.is_empty() || !w.remote {
             continue; // same as the default configuration
+          }
+          // a rejected source-phase import leaves its error entry at the
+          // specifier the request resolves to - with the redirect known up
+          // front that is the end of the chain, not the redirecting specifier
+          for e in &w.edges {
+            if e.form == Form::ImportSource
+              && let Target::Spec(d) = e.dst
+              && w.kinds[d] == Kind::Redirect
+              && want.contains(&w.spec(d))
+            {
+              seeded_extra.insert(w.spec(w.final_target(d)));
+            }
           }
           g.fill_from_lockfile(deno_graph::FillFromLockfileOptions {
             redirects: pairs.iter().map(|(a, b)| (a.as_str(), b.as_str())),
@@ -449,7 +468,14 @@ fn body(space: Space) -> impl Fn(&Ch) -> Run + Sync + Send {
             e.form == Form::ImportSource
               && w.kinds[n - 1] != Kind::Wasm
               && (e.dst == Target::Bare || matches!(e.dst, Target::Spec(d) if d == n - 1))
-          });
+          })
+          // ... or what the resolver's resolve_types table loads for an untyped module
+          || rich
+            && w.edges.iter().any(|e| {
+              e.form == Form::ImportSource
+                && matches!(e.dst, Target::Spec(d) if w.kinds[w.final_target(d)] != Kind::Wasm
+                  && (0..n).any(|i| matches!(w.kinds[i], Kind::Js | Kind::Jsx) && w.final_target((i + 1) % n) == w.final_target(d)))
+            });
         let sig = |s: String| {
           if clobber || clobber_rich {
             "source-phase-import-of-loaded-specifier-clobbers-its-slot".to_string()
@@ -527,7 +553,8 @@ fn body(space: Space) -> impl Fn(&Ch) -> Run + Sync + Send {
           }
         }
         // ---- (2) closure both ways
-        if let Some(want) = expected_closure(&w, &cfg) {
+        if let Some(mut want) = expected_closure(&w, &cfg) {
+          want.extend(seeded_extra.iter().cloned());
           let mut have: BTreeSet<String> = BTreeSet::new();
           for (s, _) in g.specifiers() {
             have.insert(s.to_string());
